@@ -5,6 +5,8 @@ import Firebolt.Expected.Skeleton
 import Firebolt.Properties.ExecNet
 import Firebolt.Generated.Source
 import Firebolt.Expected.Source
+import Firebolt.Generated.Closure
+import Firebolt.Expected.Closure
 /-!
 # C01 — Event flow conservation through the node tree
 
@@ -160,5 +162,14 @@ theorem source_invokeProcessorSync : GeneratedSrc.invokeProcessorSync = Expected
 theorem source_invokeProcessorFanout : GeneratedSrc.invokeProcessorFanout = ExpectedSrc.invokeProcessorFanout := by rfl
 theorem source_newAsyncEvent : GeneratedSrc.newAsyncEvent = ExpectedSrc.newAsyncEvent := by rfl
 theorem source_instantiateNode : GeneratedSrc.instantiateNode = ExpectedSrc.instantiateNode := by rfl
+
+/-! ### the source side: how the source channel is made and what the supervisor does with it between incarnations -/
+theorem skeleton_superviseSource : Generated.superviseSource = Expected.superviseSource := by rfl
+theorem skeleton_prepareSource : Generated.prepareSource = Expected.prepareSource := by rfl
+theorem source_withConfig : GeneratedSrc.withConfig = ExpectedSrc.withConfig := by rfl
+
+/-! ### influence closure: the pinned functions, and every function of the repository that writes a struct field or package
+variable they read, are unchanged (digests regenerated from /repo on every run; a difference names the functions) -/
+theorem closure_unchanged : GeneratedClo.C01 = ExpectedClo.C01 := by rfl
 
 end Firebolt.C01
